@@ -93,6 +93,30 @@ sys.exit(1 if bad else 0)
 '''
 
 
+LONG_UUID = 'urn:uuid:6ba7b810-9dad-11d1-80b4-00c04fd430c8/receiver-0'      # 56 characters
+
+
+REPLAY_UUID = '''
+from vlib import build
+import numpy as np, tempfile, os, shutil, sys, glob, warnings
+warnings.simplefilter('ignore')
+drf = build.load_pkg()
+import h5py
+bad = 0
+for uid in ('urn:uuid:6ba7b810-9dad-11d1-80b4-00c04fd430c8/receiver-0', '{6ba7b810-9dad-11d1-80b4-00c04fd430c8}', 'x' * 300):
+    top = tempfile.mkdtemp(); os.makedirs(top + '/ch')
+    w = drf.DigitalRFWriter(top + '/ch', 'i2', 3600, 1000, 10**10, 10, 1, uid, is_complex=False, marching_periods=False)
+    w.rf_write(np.arange(25, dtype='i2')); w.close()
+    for f in sorted(glob.glob(top + '/ch/*/rf@*.h5')):
+        with h5py.File(f, 'r') as h:
+            got = h['rf_data'].attrs['uuid_str']
+            got = got.decode() if isinstance(got, bytes) else str(got)
+        if got != uid: print(os.path.basename(f), 'carries uuid_str', repr(got[:60]), 'session identifier', repr(uid[:60])); bad = 1
+    shutil.rmtree(top)
+sys.exit(1 if bad else 0)
+'''
+
+
 def ctor_init_timestamp(rep, st, tier):
     """digital_rf_create_write_hdf5: the session start timestamp stored in every data file == floor(start_index * d / n), decided per rate with
     the x87 80-bit operations of the constructor modelled exactly (one RNE step per division, binade by forking)"""
@@ -100,7 +124,7 @@ def ctor_init_timestamp(rep, st, tier):
     from vlib.llsym import M as MASK
     mod = Module(build.c_ir()); stubs = envstubs.mk_stubs()
     rate_list = [r_ for r_ in (rates.QUICK_RATES if tier == 'quick' else rates.QUICK_RATES + [(8000, 1), (10**7, 3), (100, 3), (2**32 - 1, 4294967)])]
-    t0 = time.time(); npaths = 0; nq = 0; bad = []; unknown = []
+    t0 = time.time(); npaths = 0; nq = 0; bad = []; unknown = []; uuid_bad = []
     for (n, d) in rate_list:
         start = z3.Int('start')
         res = []
@@ -110,7 +134,7 @@ def ctor_init_timestamp(rep, st, tier):
             kmax = min(2**63 - 1, (253402300800 * n) // d)            # before year 9999
             ex.assume(z3.And(start >= 0, start <= kmax))
             dr = ex.new_region('dir'); ex.mem[dr]['cells'][()] = SymStr([wobj.CHDIR])
-            uu = ex.new_region('uuid'); ex.mem[uu]['cells'][()] = SymStr(['UUID'])
+            uu = ex.new_region('uuid'); ex.mem[uu]['cells'][()] = SymStr([LONG_UUID])
             def hmd(e, o):
                 e.user['obj_at_md'] = o; return 0
             ex.summaries['@digital_rf_check_hdf5_directory'] = lambda e, p_: 0
@@ -126,6 +150,10 @@ def ctor_init_timestamp(rep, st, tier):
             if v is None or isinstance(v, (Ptr, SymStr)) or not (isinstance(v, int) or z3.is_expr(v)):
                 res.append(('unknown', None)); return
             claim = v == (start * d) / n
+            # the session identifier stored in the object (and repeated in every file) is the caller's string, whatever its length
+            us = o.get_str('uuid_str')
+            if not (isinstance(us, SymStr) and us.copy().norm().is_concrete() and us.copy().norm().text() == LONG_UUID):
+                uuid_bad.append(repr(us)[:120])
             if ex.valid(claim): res.append(('ok', None))
             else:
                 m = ex.model(z3.Not(claim))
@@ -139,6 +167,11 @@ def ctor_init_timestamp(rep, st, tier):
         nq += ex.nq
         if not res or any(r_[0] == 'unknown' for r_ in res): unknown.append('%d/%d' % (n, d))
         bad += [(n, d, r_[1]) for r_ in res if r_[0] == 'bad' and r_[1] is not None]
+    t_uuid = 'constructor: the session identifier kept in the writer object (uuid_str, repeated in every data file) is exactly the caller\'s string (56 characters in the harness)'
+    if uuid_bad:
+        rep.violation(t_uuid, 'C06.uuid', 'stored identifier %s, given %r' % (uuid_bad[0], LONG_UUID), replay_body=REPLAY_UUID, queries=nq, paths=npaths)
+    elif not unknown:
+        rep.ob(t_uuid, 'discharged', 'any length (strings are abstract: literal pieces)', 0, 0, npaths)
     title = 'constructor: the session start timestamp (init_utc_timestamp, stored in every data file) == floor(start index * d / n)'
     bounds = '%d rates x every start index with time before year 9999' % len(rate_list)
     if bad:
